@@ -328,7 +328,18 @@ where
             .map(|s| format!("Some({})", s))
             .unwrap_or_else(|| "None".to_string());
 
-        match t {
+        // A typedef of a bounded opaque is read with the opaque reader,
+        // passing the declared maximum.
+        let mut field = t.clone();
+        if !resolve_typedefs.use_alias() {
+            if let Some(typedef) = ast.types().typedef_target(t.as_str()) {
+                if typedef.target.is_opaque() {
+                    field = typedef.target.clone();
+                }
+            }
+        }
+
+        match &field {
             BasicType::Opaque => write!(w, "v.read_variable_bytes({})?", size)?,
             BasicType::String => write!(w, "v.read_string({})?", size)?,
             _ => write!(w, "v.read_variable_array::<{}>({})?", type_str, size)?,
